@@ -138,6 +138,12 @@ class Gen:
         if cands and r.random() < 0.6:
             a, dt = r.choice(cands)       # exactly on / next to an occurring rate
             thr = [max(0, a + r.choice([0, 0, 1, -1])), dt]
+        if 2 <= n <= 4 and r.random() < 0.12:
+            # a slow drift: steps of hundreds of days, a threshold of a few 1e-9 per second -- rates that differ from
+            # the threshold by less than any absolute tolerance a comparison might use (values kept small: 32-bit TLC)
+            t = [t[0] % 100 + i * r.choice([86400 * 400, 86400 * 250]) for i in range(n)]
+            x = [v if v == NA else abs(v) % 4 for v in x]
+            thr = [1, r.choice([200000000, 50000000, 400000000])]
         c = mk("roc", x=x, t=t, p={"thr": thr})
         if r.random() < 0.06:             # mismatched lengths are rejected
             k = r.randint(0, n + 2)
@@ -246,6 +252,10 @@ class Gen:
         r = self.r
         n = self.length()
         lon, lat = self.positions(n)
+        if n >= 2 and r.random() < 0.2:
+            # a fix repeated (a platform that did not move), often the first one
+            for i in ([1] if r.random() < 0.5 else r.sample(range(1, n), max(1, n // 4))):
+                lon[i], lat[i] = lon[i - 1], lat[i - 1]
         # (the last two: upper edge below the lower one -- nothing is inside such a box)
         bbox = r.choice([[], [], [0, 0, 2, 2], [-10, -10, 10, 10], [-360, -180, 360, 180], [1, 1, 1, 1],
                          [340, -20, -340, 20], [-10, 10, 10, -10]])
